@@ -111,7 +111,7 @@ func TestC06_Layouts(t *testing.T) {
 		"template directories with a layout (1..4 distinct reserves at top level, inside @if(data flag), inside @each(data array) with loop.index, in attribute-like text, nested @if/@each/@if) and a page using it by '~name' or 'layouts/name', inserting a random subset of the reserves in random order, block form (markers, prints of data, @if/@each bodies) or expression form, with junk text, comments and blank lines between inserts; data maps with every kind; directory 't' or 'x/t', extensions .tw / .tw.html / .html. Expected output: the reference composition model (layout rendered with each reserve replaced by the reference rendering of its insert, page text outside inserts discarded). Non-trivial: >= 2 reserves, one nested in @if/@each, and a proper non-empty subset inserted. Distinct by hash of files + data.")
 	defer c.Finish()
 	in := interp()
-	runRapid(t, c, 4000, 15000, func(rt *rapid.T) {
+	runRapid(t, c, 4000, 45000, func(rt *rapid.T) {
 		env := genProgEnv().Draw(rt, "data")
 		k := rapid.IntRange(1, 4).Draw(rt, "nReserves")
 		layout, where := genLayoutFile(rt, k)
@@ -246,7 +246,7 @@ func TestC06_Errors(t *testing.T) {
 	c := harness.New(t, "C06", "errors",
 		"error classes of the statement, each embedded in an otherwise valid generated tree: an insert naming no reserve of the layout (block and expression form), two inserts with one name, a missing layout file, a layout that itself uses a layout; loading must fail (or, for the recursive layout, loading or rendering). Non-trivial: all. Distinct by hash.")
 	defer c.Finish()
-	runRapid(t, c, 600, 2500, func(rt *rapid.T) {
+	runRapid(t, c, 600, 7500, func(rt *rapid.T) {
 		env := genProgEnv().Draw(rt, "data")
 		k := rapid.IntRange(1, 3).Draw(rt, "nReserves")
 		layout, _ := genLayoutFile(rt, k)
